@@ -32,6 +32,251 @@ func C14(r *core.Report) {
 	r.Floor("C14.R4", 1)
 }
 
+// c14GateRes is the outcome of the gate analysis of one function: whether the field accessor is consulted in it
+// and, per success return (nil error), the path that bypasses the gate (nil when gated).
+type c14GateRes struct {
+	consulted bool
+	successes []*core.GNode
+	bypass    map[*core.GNode][]string
+	verified  ast.Expr // hash gate: the expression handed to VerifyHash
+}
+
+func (x *c14GateRes) gated() bool {
+	if x == nil || !x.consulted {
+		return false
+	}
+	for _, b := range x.bypass {
+		if b != nil {
+			return false
+		}
+	}
+	return true
+}
+
+func c14Successes(g *core.Graph, f *core.Func) []*core.GNode {
+	var out []*core.GNode
+	for _, rn := range g.Returns() {
+		if nilErr, dec := isNilErrReturn(f, rn); dec && nilErr {
+			out = append(out, rn)
+		}
+	}
+	return out
+}
+
+// c14CountGateIn: in f, every nil-error return after GetTotal passes `ok` false or the comparison of the frame
+// count with the recorded total. argOf maps a parameter of f to the argument of the call under analysis (helpers).
+func c14CountGateIn(p *core.Prog, f *core.Func, argOf map[types.Object]ast.Expr) *c14GateRes {
+	info := f.Pkg.TypesInfo
+	g := p.Graph(f)
+	res := &c14GateRes{bypass: map[*core.GNode][]string{}, successes: c14Successes(g, f)}
+	var totalNode *core.GNode
+	var totalOk, totalVal types.Object
+	for _, n := range stmtNodes(g) {
+		as, ok := n.Ast.(*ast.AssignStmt)
+		if !ok || len(as.Rhs) != 1 || len(as.Lhs) != 2 {
+			continue
+		}
+		if c, ok := core.Unparen(as.Rhs[0]).(*ast.CallExpr); ok && core.CalleeName(info, c) == "ipld/ipldbindcode.(DataFrame).GetTotal" {
+			totalNode, totalVal, totalOk = n, core.ObjOf(info, as.Lhs[0]), core.ObjOf(info, as.Lhs[1])
+		}
+	}
+	if totalNode == nil {
+		return res
+	}
+	res.consulted = true
+	// the comparison is with a number of frames: len(...) in place, or a parameter bound to len(...) by the caller
+	isCount := func(be *ast.BinaryExpr) bool {
+		if strings.Contains(core.ExprStr(be), "len(") {
+			return true
+		}
+		for po, a := range argOf {
+			if core.Mentions(info, be, po) && strings.Contains(core.ExprStr(a), "len(") {
+				return true
+			}
+		}
+		return false
+	}
+	gate := map[*core.GNode]bool{}
+	for _, e := range g.Nodes {
+		if e.Kind != core.KEdge || e.Ast == nil {
+			continue
+		}
+		ex := core.Unparen(e.Ast.(ast.Expr))
+		// `ok` false / `!ok` true (no total recorded): legitimate bypass, tied to the very ok of this GetTotal
+		for _, fc := range e.Facts() {
+			if id, isId := core.Unparen(fc.Expr).(*ast.Ident); isId && fc.Tag == nil && info.Uses[id] == totalOk && !fc.Truth && len(e.Facts()) == 1 && !reassignedBetween(g, info, totalNode, e, totalOk) {
+				gate[e] = true
+			}
+		}
+		// len(allFrames) != expectedTotal false
+		if be, isBin := ex.(*ast.BinaryExpr); isBin && core.Mentions(info, be, totalVal) {
+			if isCount(be) && ((be.Op == token.NEQ && !e.Truth) || (be.Op == token.EQL && e.Truth)) && leadsToErrorOnly(g, f, siblingEdge(e)) {
+				gate[e] = true
+			}
+			// `ok && len(frames) != total` false: either no total recorded or the counts agree
+			if be.Op == token.LAND && !e.Truth && leadsToErrorOnly(g, f, siblingEdge(e)) {
+				okOnly, hasCmp := true, false
+				for _, c := range conjuncts(be) {
+					if id, isId := core.Unparen(c).(*ast.Ident); isId && info.Uses[id] == totalOk {
+						continue
+					}
+					if cb, isB := core.Unparen(c).(*ast.BinaryExpr); isB && cb.Op == token.NEQ && core.Mentions(info, cb, totalVal) && isCount(cb) {
+						hasCmp = true
+						continue
+					}
+					okOnly = false
+				}
+				if okOnly && hasCmp && !reassignedBetween(g, info, totalNode, e, totalOk) {
+					gate[e] = true
+				}
+			}
+		}
+	}
+	for _, rn := range res.successes {
+		rn := rn
+		path := g.PathAvoiding(totalNode, func(x *core.GNode) bool { return x == rn }, func(x *core.GNode) bool { return gate[x] })
+		if path != nil {
+			res.bypass[rn] = g.PathStrings(path)
+			if res.bypass[rn] == nil {
+				res.bypass[rn] = []string{}
+			}
+		} else {
+			res.bypass[rn] = nil
+		}
+	}
+	return res
+}
+
+// c14HashGateIn: in f, every nil-error return after GetHash passes `ok` false or a successful VerifyHash
+// (a return that forwards VerifyHash's own result is nil only when the verification succeeded).
+func c14HashGateIn(p *core.Prog, f *core.Func) *c14GateRes {
+	info := f.Pkg.TypesInfo
+	g := p.Graph(f)
+	res := &c14GateRes{bypass: map[*core.GNode][]string{}, successes: c14Successes(g, f)}
+	var hashNode, verifyNode *core.GNode
+	var hashOk, verifyErr types.Object
+	for _, n := range stmtNodes(g) {
+		if as, ok := n.Ast.(*ast.AssignStmt); ok && len(as.Rhs) == 1 {
+			if c, ok := core.Unparen(as.Rhs[0]).(*ast.CallExpr); ok {
+				switch core.CalleeName(info, c) {
+				case "ipld/ipldbindcode.(DataFrame).GetHash":
+					if len(as.Lhs) == 2 {
+						hashNode, hashOk = n, core.ObjOf(info, as.Lhs[1])
+					}
+				case "ipld/ipldbindcode.VerifyHash":
+					verifyNode, verifyErr = n, core.ObjOf(info, as.Lhs[0])
+					if len(c.Args) == 2 {
+						res.verified = c.Args[0]
+					}
+				}
+			}
+		}
+		// return VerifyHash(data, hash)
+		if rs, ok := n.Ast.(*ast.ReturnStmt); ok && len(rs.Results) == 1 {
+			if c, ok := core.Unparen(rs.Results[0]).(*ast.CallExpr); ok && core.CalleeName(info, c) == "ipld/ipldbindcode.VerifyHash" && len(c.Args) == 2 && res.verified == nil {
+				res.verified = c.Args[0]
+			}
+		}
+	}
+	if hashNode == nil {
+		return res
+	}
+	res.consulted = true
+	gate := map[*core.GNode]bool{}
+	for _, e := range g.Nodes {
+		if e.Kind != core.KEdge || e.Ast == nil {
+			continue
+		}
+		ex := core.Unparen(e.Ast.(ast.Expr))
+		// !ok true / ok false: no checksum recorded
+		if fs := e.Facts(); len(fs) == 1 && fs[0].Tag == nil {
+			if id, ok := core.Unparen(fs[0].Expr).(*ast.Ident); ok && info.Uses[id] == hashOk && !fs[0].Truth && !reassignedBetween(g, info, hashNode, e, hashOk) {
+				gate[e] = true
+			}
+		}
+		// err of VerifyHash == nil
+		if verifyNode != nil && g.Dominates(verifyNode, e) {
+			if x, eq, isNil := core.NilCompare(info, ex); isNil && core.ObjOf(info, x) == verifyErr && eq == e.Truth && !reassignedBetween(g, info, verifyNode, e, verifyErr) {
+				gate[e] = true
+			}
+		}
+	}
+	for _, rn := range res.successes {
+		rn := rn
+		path := g.PathAvoiding(hashNode, func(x *core.GNode) bool { return x == rn }, func(x *core.GNode) bool { return gate[x] })
+		if path != nil {
+			res.bypass[rn] = g.PathStrings(path)
+			if res.bypass[rn] == nil {
+				res.bypass[rn] = []string{}
+			}
+		} else {
+			res.bypass[rn] = nil
+		}
+	}
+	return res
+}
+
+// c14HelperGate finds, in f, calls of same-package helpers whose nil error result implies the gate (the helper itself
+// consults the field and every nil return of it is gated), and returns the edges of f on which such a result is nil.
+// verified receives, for the hash gate, the caller-side expression the helper verifies.
+func c14HelperGate(p *core.Prog, f *core.Func, count bool, verified *ast.Expr) (edges map[*core.GNode]bool, broken *c14GateRes, brokenIn *core.Func) {
+	info := f.Pkg.TypesInfo
+	g := p.Graph(f)
+	edges = map[*core.GNode]bool{}
+	for _, n := range stmtNodes(g) {
+		as, ok := n.Ast.(*ast.AssignStmt)
+		if !ok || len(as.Rhs) != 1 || len(as.Lhs) != 1 {
+			continue
+		}
+		c, ok := core.Unparen(as.Rhs[0]).(*ast.CallExpr)
+		if !ok {
+			continue
+		}
+		fo := core.Callee(info, c)
+		if fo == nil {
+			continue
+		}
+		h := p.ByObj[fo.Origin()]
+		if h == nil || h.Body == nil || h.Pkg != f.Pkg || errResultIndex(h) != 0 {
+			continue
+		}
+		argOf := map[types.Object]ast.Expr{}
+		for i, a := range c.Args {
+			if po := h.ParamObj(i); po != nil {
+				argOf[po] = a
+			}
+		}
+		var hr *c14GateRes
+		if count {
+			hr = c14CountGateIn(p, h, argOf)
+		} else {
+			hr = c14HashGateIn(p, h)
+		}
+		if !hr.consulted || (!count && hr.verified == nil) {
+			continue
+		}
+		if !hr.gated() {
+			broken, brokenIn = hr, h
+			continue
+		}
+		if !count && verified != nil && hr.verified != nil {
+			if po := core.ObjOf(h.Pkg.TypesInfo, hr.verified); po != nil && argOf[po] != nil {
+				*verified = argOf[po]
+			}
+		}
+		eo := core.ObjOf(info, as.Lhs[0])
+		for _, e := range g.Nodes {
+			if e.Kind != core.KEdge || e.Ast == nil || !g.Dominates(n, e) {
+				continue
+			}
+			if x, eq, isNil := core.NilCompare(info, core.Unparen(e.Ast.(ast.Expr))); isNil && core.ObjOf(info, x) == eo && eq == e.Truth && !reassignedBetween(g, info, n, e, eo) {
+				edges[e] = true
+			}
+		}
+	}
+	return edges, broken, brokenIn
+}
+
 func c14Gates(r *core.Report) {
 	const rule = "C14.R1"
 	p := r.Prog
@@ -39,131 +284,73 @@ func c14Gates(r *core.Report) {
 	if f == nil {
 		return
 	}
-	info := f.Pkg.TypesInfo
 	g := p.Graph(f)
-	var totalNode, hashNode *core.GNode
-	var totalOk, hashOk, totalVal types.Object
-	for _, n := range stmtNodes(g) {
-		as, ok := n.Ast.(*ast.AssignStmt)
-		if !ok || len(as.Rhs) != 1 || len(as.Lhs) != 2 {
-			continue
-		}
-		c, ok := core.Unparen(as.Rhs[0]).(*ast.CallExpr)
-		if !ok {
-			continue
-		}
-		switch core.CalleeName(info, c) {
-		case "ipld/ipldbindcode.(DataFrame).GetTotal":
-			totalNode, totalVal, totalOk = n, core.ObjOf(info, as.Lhs[0]), core.ObjOf(info, as.Lhs[1])
-		case "ipld/ipldbindcode.(DataFrame).GetHash":
-			hashNode, hashOk = n, core.ObjOf(info, as.Lhs[1])
-		}
-	}
-	var successes []*core.GNode
-	for _, rn := range g.Returns() {
-		if nilErr, dec := isNilErrReturn(f, rn); dec && nilErr {
-			successes = append(successes, rn)
-		}
-	}
+	successes := c14Successes(g, f)
 	if len(successes) == 0 {
 		r.Undecided(rule, f.Key+"#success", posP(r, f.Pos()), "no success return found")
 		return
 	}
-	// count gate
-	if totalNode == nil {
-		r.Violation(rule, f.Key+"#count-gate", posP(r, f.Pos()), "the recorded frame count (GetTotal) is never consulted: a missing or duplicated frame goes unnoticed")
-	} else {
-		gate := map[*core.GNode]bool{}
-		for _, e := range g.Nodes {
-			if e.Kind != core.KEdge || e.Ast == nil {
+	// gateVia: the gate is established by a helper whose nil result dominates every success of f
+	gateVia := func(count bool, verified *ast.Expr) (found bool, paths map[*core.GNode][]string) {
+		edges, broken, brokenIn := c14HelperGate(p, f, count, verified)
+		if len(edges) == 0 && broken == nil {
+			return false, nil
+		}
+		paths = map[*core.GNode][]string{}
+		for _, rn := range successes {
+			rn := rn
+			if broken != nil {
+				for _, b := range broken.bypass {
+					if b != nil {
+						paths[rn] = append([]string{"in " + brokenIn.Key + ":"}, b...)
+					}
+				}
 				continue
 			}
-			s := core.ExprStr(e.Ast)
-			// `ok` false (no total recorded): legitimate bypass, tied to the very ok of this GetTotal
-			if id, isId := core.Unparen(e.Ast.(ast.Expr)).(*ast.Ident); isId && info.Uses[id] == totalOk && !e.Truth && !reassignedBetween(g, info, totalNode, e, totalOk) {
-				gate[e] = true
-			}
-			// len(allFrames) != expectedTotal false
-			if be, isBin := core.Unparen(e.Ast.(ast.Expr)).(*ast.BinaryExpr); isBin && core.Mentions(info, be, totalVal) && strings.Contains(s, "len(") {
-				if ((be.Op == token.NEQ && !e.Truth) || (be.Op == token.EQL && e.Truth)) && leadsToErrorOnly(g, f, siblingEdge(e)) {
-					gate[e] = true
-				}
-				// `ok && len(frames) != total` false: either no total recorded or the counts agree
-				if be.Op == token.LAND && !e.Truth && leadsToErrorOnly(g, f, siblingEdge(e)) {
-					cj := conjuncts(be)
-					okOnly, hasCmp := true, false
-					for _, c := range cj {
-						if id, isId := core.Unparen(c).(*ast.Ident); isId && info.Uses[id] == totalOk {
-							continue
-						}
-						if cb, isB := core.Unparen(c).(*ast.BinaryExpr); isB && cb.Op == token.NEQ && core.Mentions(info, cb, totalVal) && strings.Contains(core.ExprStr(cb), "len(") {
-							hasCmp = true
-							continue
-						}
-						okOnly = false
-					}
-					if okOnly && hasCmp && !reassignedBetween(g, info, totalNode, e, totalOk) {
-						gate[e] = true
-					}
+			if path := g.PathAvoiding(g.Entry, func(x *core.GNode) bool { return x == rn }, func(x *core.GNode) bool { return edges[x] }); path != nil {
+				paths[rn] = g.PathStrings(path)
+				if paths[rn] == nil {
+					paths[rn] = []string{}
 				}
 			}
 		}
+		return true, paths
+	}
+	// count gate
+	cr := c14CountGateIn(p, f, nil)
+	paths, found := cr.bypass, cr.consulted
+	if !found {
+		found, paths = gateVia(true, nil)
+	}
+	if !found {
+		r.Violation(rule, f.Key+"#count-gate", posP(r, f.Pos()), "the recorded frame count (GetTotal) is never consulted: a missing or duplicated frame goes unnoticed")
+	} else {
 		for i, rn := range successes {
-			path := g.PathAvoiding(totalNode, func(x *core.GNode) bool { return x == rn }, func(x *core.GNode) bool { return gate[x] })
-			r.Check(path == nil, rule, fmt.Sprintf("%s#count-gate@%d", f.Key, i), pos(r, rn.Ast), "when a total is recorded the number of collected frames is compared with it before success",
-				"bytes can be returned without the number of collected frames having been compared with the recorded total: a dropped or duplicated frame yields different bytes instead of an error", g.PathStrings(path)...)
+			r.Check(paths[rn] == nil, rule, fmt.Sprintf("%s#count-gate@%d", f.Key, i), pos(r, rn.Ast), "when a total is recorded the number of collected frames is compared with it before success",
+				"bytes can be returned without the number of collected frames having been compared with the recorded total: a dropped or duplicated frame yields different bytes instead of an error", paths[rn]...)
 		}
 	}
 	// hash gate
-	if hashNode == nil {
+	hr := c14HashGateIn(p, f)
+	paths, found = hr.bypass, hr.consulted
+	verified := hr.verified
+	if !found {
+		found, paths = gateVia(false, &verified)
+	}
+	if !found {
 		r.Violation(rule, f.Key+"#hash-gate", posP(r, f.Pos()), "the recorded checksum (GetHash) is never consulted")
 	} else {
-		gate := map[*core.GNode]bool{}
-		var verifyErr types.Object
-		var verifyNode *core.GNode
-		for _, n := range stmtNodes(g) {
-			if as, ok := n.Ast.(*ast.AssignStmt); ok && len(as.Rhs) == 1 {
-				if c, ok := core.Unparen(as.Rhs[0]).(*ast.CallExpr); ok && core.CalleeName(info, c) == "ipld/ipldbindcode.VerifyHash" {
-					verifyNode = n
-					verifyErr = core.ObjOf(info, as.Lhs[0])
-				}
-			}
-		}
-		for _, e := range g.Nodes {
-			if e.Kind != core.KEdge || e.Ast == nil {
-				continue
-			}
-			ex := core.Unparen(e.Ast.(ast.Expr))
-			// !ok true / ok false: no checksum recorded
-			if u, isU := ex.(*ast.UnaryExpr); isU && u.Op == token.NOT {
-				if id, ok := core.Unparen(u.X).(*ast.Ident); ok && info.Uses[id] == hashOk && e.Truth && !reassignedBetween(g, info, hashNode, e, hashOk) {
-					gate[e] = true
-				}
-			}
-			if id, isId := ex.(*ast.Ident); isId && info.Uses[id] == hashOk && !e.Truth && !reassignedBetween(g, info, hashNode, e, hashOk) {
-				gate[e] = true
-			}
-			// err of VerifyHash == nil
-			if verifyNode != nil && g.Dominates(verifyNode, e) {
-				if x, eq, isNil := core.NilCompare(info, ex); isNil && core.ObjOf(info, x) == verifyErr && eq == e.Truth && !reassignedBetween(g, info, verifyNode, e, verifyErr) {
-					gate[e] = true
-				}
-			}
-		}
 		for i, rn := range successes {
-			path := g.PathAvoiding(hashNode, func(x *core.GNode) bool { return x == rn }, func(x *core.GNode) bool { return gate[x] })
-			r.Check(path == nil, rule, fmt.Sprintf("%s#hash-gate@%d", f.Key, i), pos(r, rn.Ast), "when a checksum is recorded the concatenated bytes are verified against it before success",
-				"bytes can be returned although a checksum is recorded and was not verified successfully: an altered or foreign frame yields different bytes instead of an error", g.PathStrings(path)...)
+			r.Check(paths[rn] == nil, rule, fmt.Sprintf("%s#hash-gate@%d", f.Key, i), pos(r, rn.Ast), "when a checksum is recorded the concatenated bytes are verified against it before success",
+				"bytes can be returned although a checksum is recorded and was not verified successfully: an altered or foreign frame yields different bytes instead of an error", paths[rn]...)
 		}
 		// the bytes verified are the bytes returned
-		if verifyNode != nil {
-			as := verifyNode.Ast.(*ast.AssignStmt)
-			c := core.Unparen(as.Rhs[0]).(*ast.CallExpr)
-			verified := core.ExprStr(c.Args[0])
+		if verified != nil {
+			vs := core.ExprStr(verified)
 			for i, rn := range successes {
 				res := returnResults(rn)
-				r.Check(len(res) > 0 && core.ExprStr(res[0]) == verified, rule, fmt.Sprintf("%s#verified-bytes-are-returned@%d", f.Key, i), pos(r, rn.Ast), "the expression verified is the expression returned: "+verified,
-					"the bytes returned ("+core.ExprStr(res[0])+") are not the bytes that were verified ("+verified+")")
+				r.Check(len(res) > 0 && core.ExprStr(res[0]) == vs, rule, fmt.Sprintf("%s#verified-bytes-are-returned@%d", f.Key, i), pos(r, rn.Ast), "the expression verified is the expression returned: "+vs,
+					"the bytes returned ("+core.ExprStr(res[0])+") are not the bytes that were verified ("+vs+")")
 			}
 		}
 	}
@@ -182,8 +369,35 @@ func c14Gates(r *core.Report) {
 				continue
 			}
 			c, ok := core.Unparen(as.Rhs[0]).(*ast.CallExpr)
-			if !ok || core.CalleeName(ci, c) != "ipld/ipldbindcode.VerifyHash" {
+			if !ok {
 				continue
+			}
+			// the verification itself, or a same-package helper that verifies a present checksum (nil only when the
+			// field is absent or the verification succeeded)
+			vg, vn, vi, vc := cg, nd, ci, c
+			if core.CalleeName(ci, c) != "ipld/ipldbindcode.VerifyHash" {
+				fo := core.Callee(ci, c)
+				if fo == nil || len(as.Lhs) != 1 {
+					continue
+				}
+				h := p.ByObj[fo.Origin()]
+				if h == nil || h.Body == nil || h.Pkg != cf.Pkg || errResultIndex(h) != 0 {
+					continue
+				}
+				if hr := c14HashGateIn(p, h); !hr.gated() || hr.verified == nil {
+					continue
+				}
+				vg, vi, vn, vc = p.Graph(h), h.Pkg.TypesInfo, nil, nil
+				for _, hn := range stmtNodes(vg) {
+					for _, hc := range nodeCalls(hn) {
+						if core.CalleeName(vi, hc) == "ipld/ipldbindcode.VerifyHash" {
+							vn, vc = hn, hc
+						}
+					}
+				}
+				if vn == nil {
+					continue
+				}
 			}
 			n++
 			eo := core.ObjOf(ci, as.Lhs[0])
@@ -200,16 +414,16 @@ func c14Gates(r *core.Report) {
 			}
 			r.Check(okErr, rule, fmt.Sprintf("%s#single-frame-hash-mismatch-fails@%d", cf.Key, n), pos(r, c), "a checksum mismatch on the single-frame path returns an error", "a checksum mismatch on the single-frame path does not fail")
 			// the verification is skipped only when no checksum is recorded: no condition on the checksum's VALUE guards it
-			if len(c.Args) == 2 {
-				if ho := core.ObjOf(ci, c.Args[1]); ho != nil {
+			if len(vc.Args) == 2 {
+				if ho := core.ObjOf(vi, vc.Args[1]); ho != nil {
 					badCond := ""
-					for _, fc := range cg.FactsAt(nd) {
-						if fc.Tag == nil && core.Mentions(ci, fc.Expr, ho) {
+					for _, fc := range vg.FactsAt(vn) {
+						if fc.Tag == nil && core.Mentions(vi, fc.Expr, ho) {
 							badCond = core.ExprStr(fc.Expr)
 						}
 					}
-					for _, d := range cg.Dominators(nd) {
-						if d.Kind == core.KEdge && d.Ast != nil && core.Mentions(ci, d.Ast, ho) {
+					for _, d := range vg.Dominators(vn) {
+						if d.Kind == core.KEdge && d.Ast != nil && core.Mentions(vi, d.Ast, ho) {
 							badCond = core.ExprStr(d.Ast)
 						}
 					}
@@ -239,17 +453,45 @@ func c14Order(r *core.Report) {
 	okCmp := false
 	for _, n := range stmtNodes(g) {
 		for _, c := range nodeCalls(n) {
-			if nm := core.CalleeName(info, c); (nm == "sort.Slice" || nm == "sort.SliceStable") && len(c.Args) == 2 {
-				lit, ok := core.Unparen(c.Args[1]).(*ast.FuncLit)
+			nm := core.CalleeName(info, c)
+			var lf *core.Func
+			var lit *ast.FuncLit
+			if (nm == "sort.Slice" || nm == "sort.SliceStable") && len(c.Args) == 2 {
+				l, ok := core.Unparen(c.Args[1]).(*ast.FuncLit)
 				if !ok {
 					continue
 				}
+				lit, lf = l, p.ByLit[l]
 				sortNode = n
 				sorted = core.ObjOf(info, c.Args[0])
-				lf := p.ByLit[lit]
+			} else if (nm == "sort.Sort" || nm == "sort.Stable") && len(c.Args) == 1 {
+				// sort.Sort(byIndex(frames)): the order is the Less method of the named slice type
+				conv, ok := core.Unparen(c.Args[0]).(*ast.CallExpr)
+				if !ok || len(conv.Args) != 1 {
+					continue
+				}
+				tv, isT := info.Types[conv.Fun]
+				if !isT || !tv.IsType() {
+					continue
+				}
+				if _, isSl := tv.Type.Underlying().(*types.Slice); !isSl {
+					continue
+				}
+				if sel := types.NewMethodSet(tv.Type).Lookup(f.Pkg.Types, "Less"); sel != nil {
+					if mo, ok := sel.Obj().(*types.Func); ok {
+						lf = p.ByObj[mo.Origin()]
+					}
+				}
+				if lf == nil || lf.Body == nil || lf.ParamObj(1) == nil {
+					continue
+				}
+				sortNode = n
+				sorted = core.ObjOf(info, conv.Args[0])
+			}
+			if lf != nil {
 				var iP, jP types.Object = lf.ParamObj(0), lf.ParamObj(1)
 				// a comparator that only forwards to a helper:  return less(frames[i], frames[j])
-				if len(lit.Body.List) == 1 {
+				if lit != nil && len(lit.Body.List) == 1 {
 					if rs, ok := lit.Body.List[0].(*ast.ReturnStmt); ok && len(rs.Results) == 1 {
 						if hc, ok := core.Unparen(rs.Results[0]).(*ast.CallExpr); ok && len(hc.Args) == 2 {
 							if fo := core.Callee(info, hc); fo != nil {
@@ -335,7 +577,40 @@ func c14Order(r *core.Report) {
 	if lf := r.Anchor(rule, "tooling.LoadDataFromDataFrames"); lf != nil {
 		li := lf.Pkg.TypesInfo
 		ok := false
+		// the frames slice: the local bound to the result of getAllFramesFromDataFrame, or the parameter of a
+		// same-package helper that receives that local
+		framesObj := map[types.Object]bool{}
+		scan := []*core.Func{lf}
 		ast.Inspect(lf.Body, func(m ast.Node) bool {
+			if as, isA := m.(*ast.AssignStmt); isA && len(as.Rhs) == 1 && len(as.Lhs) >= 1 {
+				if c, isC := core.Unparen(as.Rhs[0]).(*ast.CallExpr); isC && strings.HasSuffix(core.CalleeName(li, c), "getAllFramesFromDataFrame") {
+					if o := core.ObjOf(li, as.Lhs[0]); o != nil && singleDef(lf, o) != nil {
+						framesObj[o] = true
+					}
+				}
+			}
+			return true
+		})
+		for _, c := range core.CallsIn(lf.Body, false) {
+			fo := core.Callee(li, c)
+			if fo == nil {
+				continue
+			}
+			h := p.ByObj[fo.Origin()]
+			if h == nil || h.Body == nil || h.Pkg != lf.Pkg {
+				continue
+			}
+			for i, a := range c.Args {
+				if o := core.ObjOf(li, a); o != nil && framesObj[o] && h.ParamObj(i) != nil && !assignedIn(h, h.ParamObj(i)) {
+					framesObj[h.ParamObj(i)] = true
+					scan = append(scan, h)
+				}
+			}
+		}
+		for _, sf := range scan {
+		sf := sf
+		li := sf.Pkg.TypesInfo
+		ast.Inspect(sf.Body, func(m ast.Node) bool {
 			rs, isR := m.(*ast.RangeStmt)
 			if !isR {
 				return true
@@ -343,16 +618,7 @@ func c14Order(r *core.Report) {
 			if _, isSl := li.TypeOf(rs.X).Underlying().(*types.Slice); !isSl {
 				return true
 			}
-			// the frames slice: the one returned by getAllFramesFromDataFrame
-			fromFrames := false
-			if o := core.ObjOf(li, rs.X); o != nil {
-				if d := singleDef(lf, o); d != nil {
-					if c, isC := core.Unparen(d).(*ast.CallExpr); isC && strings.HasSuffix(core.CalleeName(li, c), "getAllFramesFromDataFrame") {
-						fromFrames = true
-					}
-				}
-			}
-			if !fromFrames {
+			if o := core.ObjOf(li, rs.X); o == nil || !framesObj[o] {
 				return true
 			}
 			// each iteration adds the current element's bytes at the end of the payload: Buffer.Write(x.Bytes()) or
@@ -384,6 +650,7 @@ func c14Order(r *core.Report) {
 			}
 			return true
 		})
+		}
 		r.Check(ok, rule, lf.Key+"#concatenates-in-slice-order", posP(r, lf.Pos()), "the frames are concatenated by ranging over the sorted slice", "the frames are not concatenated in the order of the sorted slice")
 	}
 }
@@ -402,6 +669,14 @@ func c14VerifyHash(r *core.Report) {
 	match := map[*core.GNode]bool{}
 	for _, e := range g.Nodes {
 		if e.Kind != core.KEdge || e.Ast == nil {
+			continue
+		}
+		// switch hash { case checksumCrc64(data): ... }: the case edge is the equality of tag and case expression
+		if e.Tag != nil && e.Truth {
+			both := core.ExprStr(e.Tag) + " " + core.ExprStr(e.Ast)
+			if (core.Mentions(info, e.Tag, hashP) || core.Mentions(info, e.Ast, hashP)) && strings.Contains(both, "checksum") {
+				match[e] = true
+			}
 			continue
 		}
 		be, ok := core.Unparen(e.Ast.(ast.Expr)).(*ast.BinaryExpr)
@@ -807,4 +1082,30 @@ func c14SingleReassemblyPath(r *core.Report) {
 	if n == 0 {
 		r.Undecided(rule, "main#payload-loads", "", "no payload load found on the serving side")
 	}
+}
+
+// assignedIn reports whether o is assigned (or has its address taken) anywhere in f's body.
+func assignedIn(f *core.Func, o types.Object) bool {
+	info := f.Pkg.TypesInfo
+	found := false
+	ast.Inspect(f.Body, func(m ast.Node) bool {
+		switch x := m.(type) {
+		case *ast.AssignStmt:
+			for _, l := range x.Lhs {
+				if id, ok := core.Unparen(l).(*ast.Ident); ok && (info.Uses[id] == o || info.Defs[id] == o) {
+					found = true
+				}
+			}
+		case *ast.UnaryExpr:
+			if x.Op == token.AND && core.ObjOf(info, x.X) == o {
+				found = true
+			}
+		case *ast.IncDecStmt:
+			if core.ObjOf(info, x.X) == o {
+				found = true
+			}
+		}
+		return !found
+	})
+	return found
 }
